@@ -31,5 +31,5 @@ def run_parts(ck, tier, witness_parts=(), ir_parts=(), cfgs=None, rule_filter=No
                     if r['ok']:
                         r['res']['reports'] = [x for x in r['res']['reports'] if rule_filter(part, x)]
             irrules.aggregate(ck, res)
-            results[part] = res
+            results[part] = [x for x in res if x['ok']]
     return results
